@@ -41,6 +41,20 @@ def correspondence(ctx):
                 "import sys; sys.path.insert(0, %r); sys.path.insert(0, %r)\nfrom harness import arrays\nclass X: seed=%d; tier=%r\n"
                 "problems, _, _ = arrays.c19_run(X)\nhit=[d for k, d in problems if k==%r]\nassert not hit, hit[0]\n"
                 % (C.VERIF, C.VERIF + "/tools", ctx.seed, ctx.tier, k))})
+    # the same operations on arrays whose columns are int64 / int32 / float32 / mixed (element i = the object result for element i)
+    dbad, dst = backends.dtype_value_lattice(ctx)
+    out["stats"]["dtype_elements"] = dst["dtype_elements"]
+    VS_OPS = ("add", "subtract", "scale", "v * 0.5", "0.25 * v", "v / 4", "-v", "+v", "abs", "v ** 2", "neg2D", "neg3D", "neg4D", "cross", "dot", "unit", "scale2D", "scale3D")
+    dseen = set()
+    for a, b, k in dbad:
+        if k in dseen or not any(k.split(":")[-1] == o for o in VS_OPS):
+            continue
+        dseen.add(k)
+        out["disagreements"].append(f"{a} :: {b}"[:300])
+        out["failing_inputs"].append({"key": k, "what": f"{a}: {b}"[:400], "code": (
+            "import sys; sys.path.insert(0, %r); sys.path.insert(0, %r)\nfrom harness import backends as Bk\nclass X: seed=%d; tier=%r\n"
+            "bad, _ = Bk.dtype_value_lattice(X)\nhit=[b for b in bad if b[2]==%r]\nassert not hit, hit[0][0] + ' :: ' + hit[0][1]\n" % (C.VERIF, C.VERIF + "/tools", ctx.seed, ctx.tier, k))})
+    out["ok"] = out["ok"] and not dseen
     # scaling / negation / unit / addition on Awkward momentum arrays whose records carry raw momentum-spelled fields: the RESULT read back
     from harness import c14
     rb, rn = c14.raw_awkward_spellings("ops")
